@@ -1,5 +1,5 @@
 (* C12 — no missing piece is ever withheld by a stale reservation. *)
-From Rdest Require Import Base Consts Wire Manager MgrProofs Handler HandlerProofs.
+From Rdest Require Import Base Consts Wire Manager MgrProofs Handler HandlerProofs PairProofs.
 Open Scope N_scope.
 
 (* a piece once owned stays owned, whatever command the manager handles *)
@@ -36,11 +36,21 @@ Theorem C12_task_guarantee : forall sha1 cf disk ovf s m r,
   In (ACmd KUnchoke) (acts_of (hstep sha1 cf disk ovf s (EFrame m) r)) -> m = Unchoke /\ h_choked s = true.
 Proof. intros. eapply unchoke_relayed_only_when_choked; eauto. Qed.
 
+(* the composed statement: in every reachable composition of a task with the manager (PairProofs.v: own events
+   with their commands handled in order, everything else interleaved) the manager's "peer chokes us" flag for that
+   peer -- the one it consults before reserving -- is the task's own flag, and the piece it holds the peer to is the
+   piece the task is assembling *)
+Theorem C12_flags_agree : forall sha1 cf disk ovf a m s p, creach sha1 cf disk ovf a m s ->
+  pget (m_peers m) a = Some p -> p_choked p = h_choked s /\ p_piece_index p = option_map rx_index (h_rx s).
+Proof.
+  intros sha1 cf disk ovf a m s p R Ep. destruct (pair_reachable sha1 cf disk ovf a m s R) as [HP _].
+  pose proof (HP p Ep) as V. unfold pview, hview in V. injection V as Vi Vc. split; assumption.
+Qed.
+
 (* and an assignment is asked for at once: C10_assignment (the task writes the first blocks of the piece it was assigned).
-   Not proved in Coq: the composed statement "the task's choke flag equals the manager's for that peer" over all
-   interleavings (both are set by the same frames; the KillReq window after a task's death is not modelled). The
-   correspondence evaluates the stronger "has actually been asked" form on the real Session with the task's piece in the
-   harness (reserved_backed / asked_ok). Three defects were found and repaired (known_findings.json). *)
+   Not modelled: the KillReq window after a task's death. The correspondence evaluates the stronger "has actually been
+   asked" form on the real Session with the task's piece in the harness (reserved_backed / asked_ok). Three defects
+   were found and repaired (known_findings.json). *)
 Example C12_nonvacuous :
   let p := mkpeer None [true; true] None false true false true false None None in
   let m := mkmgr [Missing; Have] [(1, p)] [] 0 false [4; 2] in
@@ -53,3 +63,4 @@ Print Assumptions C12_invariant.
 Print Assumptions C12_invariant_step.
 Print Assumptions C12_released.
 Print Assumptions C12_task_guarantee.
+Print Assumptions C12_flags_agree.
